@@ -740,3 +740,47 @@ Example newton_crit_1d_closed_instance :
     newton_root NumR (fun _ => quad_answer [[2%R]] [4%R]) (ND_model NumXR 0%R 0%R) (fun _ _ => false) (fun _ _ => true)
       (mkNw 1%R 5%Z false false 0%Z 0.5%R) 2 [10%R] = (NwConv x', tr) /\ x' = [(4 / 2)%R].
 Proof. exact newton_crit_1d_closed_instance_l. Qed.
+
+(* ===== round 7 ===== *)
+From ADV Require Import C07.ModelSaga C07.ProofsR7.
+(* (a) the shared stop test  Norm(g) < eps  of gradientDescent, rprop, rprop_dense, adam, adam_dense
+   (Model.norm, the model of algorithm.Norm) bounds EVERY coordinate of the gradient, for every
+   vector length; over R (the binary64 instance is replayed in every dimension 1..12) *)
+Theorem norm_stop_bounds_every_coordinate : forall (v : list R) (eps : R),
+  ltb NumR (norm NumR v) eps = true -> forall g, In g v -> (Rabs g < eps)%R.
+Proof. exact norm_stop_every_coord. Qed.
+Example norm_stop_instance :
+  ltb NumR (norm NumR [0; 0; 1]%R) 2%R = true /\ ltb NumR (norm NumR [0; 0; 3]%R) 2%R = false /\
+  ltb NumR (norm NumR [0; 0]%R) 2%R = true.
+Proof. exact norm_stop_instance_l. Qed.
+
+(* (b) saga with the built-in options TikhonovRegularization{lam} / L1Regularization{lam}: the proximal
+   step Run installs (lambda rescaled to gamma*lam/n after the option became a proximal operator),
+   applied to a gradient step with the mean gradient g, leaves x fixed exactly at the stationary
+   points of  mean_j f_j + (lam/n) h,  h = |x|^2/2 resp. |x|_1 — i.e. of  sum_j f_j + lam h;
+   in one dimension on least squares this is the closed-form minimiser sab / (saa + lam).
+   Over R; nothing is claimed about L2Regularization (group soft threshold) or about convergence. *)
+Theorem saga_tikhonov_fixed_point : forall (P : sg_params (A := R)) (lam : R),
+  (0 < sg_n P)%nat -> (0 < sg_gamma P)%R -> (0 <= lam)%R ->
+  forall x g, sg_prox_op P = PTi lam -> length x = length g ->
+  (sg_apply_prox NumR P (gstep P x g) = x <->
+   Forall2 (fun xi gi => (gi + lam / INR (sg_n P) * xi = 0)%R) x g).
+Proof. exact ProofsR7.saga_tikhonov_fixed_point. Qed.
+Theorem saga_l1_fixed_point : forall (P : sg_params (A := R)) (lam : R),
+  (0 < sg_n P)%nat -> (0 < sg_gamma P)%R -> (0 <= lam)%R ->
+  forall x g, sg_prox_op P = PL1 lam -> length x = length g ->
+  (sg_apply_prox NumR P (gstep P x g) = x <-> Forall2 (kkt_l1 (lam / INR (sg_n P))) x g).
+Proof. exact ProofsR7.saga_l1_fixed_point. Qed.
+Theorem saga_tikhonov_closed_form_1d : forall (P : sg_params (A := R)) (lam : R),
+  (0 < sg_n P)%nat -> (0 < sg_gamma P)%R -> (0 <= lam)%R ->
+  forall saa sab x, sg_prox_op P = PTi lam -> (0 < saa + lam)%R ->
+  (sg_apply_prox NumR P (gstep P [x] [((saa * x - sab) / INR (sg_n P))%R]) = [x] <-> x = (sab / (saa + lam))%R).
+Proof. exact ProofsR7.saga_tikhonov_closed_form_1d. Qed.
+Example saga_tikhonov_instance :
+  sg_apply_prox NumR PTi_ex (gstep PTi_ex [(1 / 2)%R] [((3 * (1 / 2) - 2) / INR 2)%R]) = [(1 / 2)%R] /\
+  sg_apply_prox NumR PTi_ex (gstep PTi_ex [1%R] [((3 * 1 - 2) / INR 2)%R]) <> [1%R].
+Proof. exact saga_tikhonov_instance_l. Qed.
+Example saga_l1_instance :
+  sg_apply_prox NumR PL1_ex (gstep PL1_ex [0; 1]%R [1 / 4; - (1 / 2)]%R) = [0; 1]%R /\
+  sg_apply_prox NumR PL1_ex (gstep PL1_ex [0; 1]%R [1; - (1 / 2)]%R) <> [0; 1]%R.
+Proof. exact saga_l1_instance_l. Qed.
